@@ -134,7 +134,7 @@ def replay_piecewise(model):
     return dict(ok=not exact, function="SolverWrapper.add_piecewise_constant_constraint", **det)
 
 
-def native_bound_queue(cols):
+def native_bound_queue(cols, order=None):
     """cols: list of dict(lb, ub, fix=None|v, lower=None|v).  Applies the queues through the real wrapper, reads the bounds back."""
     import numpy as np
     s = _sw()
@@ -143,8 +143,9 @@ def native_bound_queue(cols):
     for i, c in enumerate(cols):
         if c.get("fix") is not None:
             s.queue_fix_variable(vs[i], c["fix"])
-        if c.get("lower") is not None:
-            s.queue_set_var_lower_bound(vs[i], c["lower"])
+    lowers = [i for i, c in enumerate(cols) if c.get("lower") is not None]
+    for i in (order if order else lowers):
+        s.queue_set_var_lower_bound(vs[i], cols[i]["lower"])
     s._apply_pending_bound_updates()
     st, nn, cost, lower, upper, nnz = s.solver.getCols(n, np.arange(n, dtype=np.int32))
     obs = [dict(lb=float(lower[i]), ub=float(upper[i])) for i in range(n)]
@@ -159,18 +160,29 @@ def native_bound_queue(cols):
 
 
 def replay_bound_queue(model):
-    # take the first queued lower bound of the counter-model (column value, its initial bounds) and one untouched / one fixed column
-    li = mfun(model, "lbq.vars.at.1", 0, default=1)
-    lv = mfun(model, "lbq.vals.at.0", 0, default=1.0)
-    lb0 = mfun(model, "lb0", int(li), default=0.0)
-    ub0 = mfun(model, "ub0", int(li), default=5.0)
-    if not (ub0 >= lv):
-        ub0 = lv + abs(lv) + 1      # keep the instance meaningful (lower bound below the upper bound)
-    if lb0 > ub0:
-        lb0 = ub0 - 1
-    cols = [dict(lb=0.0, ub=7.0), dict(lb=lb0, ub=ub0, lower=lv), dict(lb=0.0, ub=9.0, fix=2.0)]
-    bad, obs, qe = native_bound_queue(cols)
-    return dict(ok=bool(bad) or not qe, function="SolverWrapper._apply_pending_bound_updates", columns=cols, mismatches=bad, observed=obs, queues_empty=qe)
+    """decode up to three queued lower bounds (in queue order, keeping the relative order of their columns) and one fix"""
+    nl = int(mconst(model, "lbq.vars.len", 1) or 1)
+    k = max(1, min(3, nl))
+    entries = []
+    for q in range(k):
+        li = mfun(model, "lbq.vars.at.1", q, default=q)
+        lv = mfun(model, "lbq.vals.at.0", q, default=1.0)
+        entries.append((li, lv, mfun(model, "lb0", int(li), default=0.0), mfun(model, "ub0", int(li), default=5.0)))
+    rank = {c: r for r, c in enumerate(sorted(set(e[0] for e in entries)))}
+    if len(rank) < len(entries):
+        entries = entries[:1]
+        rank = {entries[0][0]: 0}
+    cols = [dict(lb=0.0, ub=7.0) for _ in range(len(rank))] + [dict(lb=0.0, ub=9.0, fix=2.0)]
+    order = []
+    for li, lv, lb0, ub0 in entries:
+        if not (ub0 >= lv):
+            ub0 = lv + abs(lv) + 1
+        if lb0 > ub0:
+            lb0 = ub0 - 1
+        cols[rank[li]] = dict(lb=lb0, ub=ub0, lower=lv)
+        order.append(rank[li])
+    bad, obs, qe = native_bound_queue(cols, order)
+    return dict(ok=bool(bad) or not qe, function="SolverWrapper._apply_pending_bound_updates", columns=cols, queue_order=order, mismatches=bad, observed=obs, queues_empty=qe)
 
 
 def run(d):
@@ -183,7 +195,7 @@ def run(d):
             print("REPLAY piecewise exact=%s %s" % (exact, json.dumps(det, default=str)))
             return 0 if exact else 1
         if "_apply_pending_bound_updates" in fn:
-            bad, obs, qe = native_bound_queue(rp["columns"])
+            bad, obs, qe = native_bound_queue(rp["columns"], rp.get("queue_order"))
             print("REPLAY bound queue mismatches=%s queues_empty=%s" % (bad, qe))
             return 1 if (bad or not qe) else 0
         if "product" in fn:
